@@ -26,9 +26,13 @@ Abstractions (stated in checks.d/C10.json):
 * Go maps are association lists in insertion order; the Go code iterates them
   in sorted order, which only influences the *order* of the emitted entries
   (canonicalised away by sorting on both sides of the correspondence);
-* CAS failures are a function `Env.putFails` of the blob that is written;
-  `ReadDir` failures are a flag of the directory; every saved error is
-  recorded in `errs` (`firstError` is set iff `errs ≠ []`).
+* CAS failures are a function `Env.putFails` of the blob that is written,
+  `Readlink` failures a function `Env.readlinkFails` of the link's target;
+  `readable = false` on a directory means it cannot be listed (`ReadDir`
+  fails; for a directory that is a declared output or lies inside one,
+  failing to enter it has the same effect: the error is saved and the
+  directory is left out); every saved error is recorded in `errs`
+  (`firstError` is set iff `errs ≠ []`).
 -/
 namespace BbRe.Outputs
 
@@ -250,6 +254,8 @@ inductive Blob where
 
 structure Env where
   putFails : Blob → Bool
+  /-- `Readlink` fails for a symlink with this target (fault injection) -/
+  readlinkFails : Str → Bool := fun _ => false
 
 /-- Error classes (gRPC codes are what is observable; messages are not modelled). -/
 inductive Err where
@@ -333,7 +339,8 @@ def uploadEntries (env : Env) : Entries → DirMsg → UpState → DirMsg × UpS
     | (some cm, st') => uploadEntries env rest (.mk fs (ds ++ [(name, cm)]) ss) st'
     | (none, st') => uploadEntries env rest (.mk fs ds ss) st'
   | (name, .symlink t) :: rest, .mk fs ds ss, st =>
-    uploadEntries env rest (.mk fs ds (ss ++ [(name, normTarget t)])) st
+    if env.readlinkFails t then uploadEntries env rest (.mk fs ds ss) (st.err .fs)
+    else uploadEntries env rest (.mk fs ds (ss ++ [(name, normTarget t)])) st
   | (_, .special) :: rest, m, st => uploadEntries env rest m st     -- no `default:` in the switch
 end
 
@@ -356,7 +363,9 @@ def uploadPath (env : Env) (upDirs : Bool) (es : Entries) (name : Name) (paths :
   | some (.file x c) =>
     if env.putFails (.file c) then .err .put
     else { files := paths.map (fun p => (p, c, x)) }
-  | some (.symlink t) => { symlinks := paths.map (fun p => (p, normTarget t)) }
+  | some (.symlink t) =>
+    if env.readlinkFails t then .err .fs
+    else { symlinks := paths.map (fun p => (p, normTarget t)) }
   | some .special => .err .invalidArgument
 
 def uploadPaths (env : Env) (upDirs : Bool) (es : Entries) : List (Name × List Str) → Res
